@@ -627,6 +627,8 @@ class Combiner(Node):
         while True:
             #print(f"T={self.env.now:.2f}: {self.id} worker{i} started processing")
             if self.state == "SETUP_STATE":
+                # start the clock of the set-up state so that the set-up period is charged to it
+                self.update_state("SETUP_STATE", self.env.now)
                 
                 print(f"T={self.env.now:.2f}: {self.id} is in SETUP_STATE")
                 yield self.env.timeout(self.node_setup_time)# always an int or float
